@@ -39,10 +39,9 @@ def iter_job(e, p):
     e.hooks['on_panic'] = on_panic; e.hooks['on_bound'] = on_panic
     items, after = run_iter(e, kind, vec)
     # after the run the decided/undecided pattern is fixed by the path condition
-    und = [i for i in range(L) if sat_model(e, z3.ULE(xs[i], 1)) is None]
-    dec = [i for i in range(L) if i not in und]
-    for i in dec:
-        if sat_model(e, z3.UGT(xs[i], 1)) is not None: raise Unsupported('pattern not decided on this path')
+    # the code under test normally decides the pattern itself; a position it never looked at is decided here (forks the path)
+    dec = [i for i in range(L) if e.branch(z3.ULE(xs[i], 1))]
+    und = [i for i in range(L) if i not in dec]
     k = len(und)
     want = (2 ** k) if kind == 'two' else (3 ** k)
     if canary: want += 1
